@@ -135,6 +135,12 @@ func goCtx() pongo2.Context {
 			return a + 2*b + 3*c + 4*d + 5*e + 6*f + 7*g
 		},
 		"two": []int{1, 2},
+		// callables that panic: with a string, with an error value, with a custom value; and one whose typed
+		// pointer parameter receives nil (the reflective call itself panics)
+		"fps": func() string { panic("panic with a plain string") },
+		"fpe": func() string { panic(errors.New("panic with an error value")) },
+		"fpc": func(i int) string { panic(struct{ Code int }{i}) },
+		"fpp": func(p *Leaf) string { return p.Name },
 	}
 }
 
@@ -348,6 +354,10 @@ func modelCtx() map[string]*Node {
 		"usr":  {K: "struct", Map: map[string]*Node{"ID": nInt(7), "By": nStr("root"), "Name": nStr("u-name")}, Hidden: []string{"baseT"}},
 		"usrp": {K: "struct", Map: map[string]*Node{"ID": nInt(8), "By": nStr("admin"), "Name": nStr("up-name")}, Hidden: []string{"baseT"}, IsPtr: true},
 		"usrq": {K: "struct", Map: map[string]*Node{"ID": nInt(9), "By": nStr("ptr"), "Name": nStr("uq-name")}, Hidden: []string{"baseT"}},
+		"fps":  fn(nil, false, func(a []*Node) (*Node, bool) { return nil, true }),
+		"fpe":  fn(nil, false, func(a []*Node) (*Node, bool) { return nil, true }),
+		"fpc":  fn([]string{"int"}, false, func(a []*Node) (*Node, bool) { return nil, true }),
+		"fpp":  fn([]string{"leafptr"}, false, func(a []*Node) (*Node, bool) { return nil, true }), // no model value is a *Leaf: other kinds are errors, nil is left open
 		"fc3":  fn([]string{"int", "str", "int"}, false, func(a []*Node) (*Node, bool) { return nStr(a[0].P + "/" + a[1].P + "/" + a[2].P), false }),
 		"fc5": fn([]string{"int", "int", "int", "int", "int"}, false, func(a []*Node) (*Node, bool) {
 			return nStr(a[0].P + a[1].P + a[2].P + a[3].P + a[4].P), false
@@ -840,7 +850,7 @@ func callForms() []Step {
 }
 
 func run(r *eng.Runner) {
-	firsts := []string{"qm", "cel", "nms", "usr", "usrp", "usrq", "am", "cm", "nm", "r", "rv", "m", "im", "l", "arr", "s", "i", "nilv", "missing", "f0", "f2", "fvar", "ferr", "fval", "fctx", "fmap", "val", "stg"}
+	firsts := []string{"fps", "fpe", "fpp", "qm", "cel", "nms", "usr", "usrp", "usrq", "am", "cm", "nm", "r", "rv", "m", "im", "l", "arr", "s", "i", "nilv", "missing", "f0", "f2", "fvar", "ferr", "fval", "fctx", "fmap", "val", "stg"}
 	sinks := []string{"print", "length", "if"}
 	callSinks := []string{"print", "length", "if", "repeat"}
 	steps := stepsFor()
@@ -887,7 +897,7 @@ func run(r *eng.Runner) {
 		pre   []Step
 	}
 	var cs []callee
-	for _, f := range []string{"f0", "f2", "fvar", "ferr", "fval", "fctx", "fc3", "fc5", "fc7", "fmap", "fstr", "i", "m", "missing"} {
+	for _, f := range []string{"f0", "f2", "fvar", "ferr", "fval", "fctx", "fc3", "fc5", "fc7", "fmap", "fstr", "i", "m", "missing", "fps", "fpe", "fpc", "fpp"} {
 		cs = append(cs, callee{f, nil})
 	}
 	for _, mc := range [][2]string{{"qm", "Fetch"}, {"qm", "Size"}, {"cel", "Fahrenheit"}, {"cel", "Plus"}, {"nms", "Joined"}} {
